@@ -168,6 +168,10 @@ func ReportElement(dbStream io.Reader, rec ReportElementConfig) error {
 			}
 		}
 	}
+	// order by name first so that the stable sort by value leaves ties in name order
+	sort.Slice(list, func(i, j int) bool {
+		return list[i].Name < list[j].Name
+	})
 	if rec.Descending {
 		sort.SliceStable(list, func(i, j int) bool {
 			return list[i].Value > list[j].Value
